@@ -7,7 +7,7 @@
    Part C: the client model: OSendReq (requests, batches), OSendRsp (callback replies). *)
 From Coq Require Import List NArith ZArith Bool Arith Lia.
 From JV Require Import Bytes Sort Json JsonProofs JsonPrint JsonTree JsonEq Msg Wire WireProofs WireSpecs WireMore.
-From JV Require SrvModel SrvLemmas SrvC09 SrvC10 CliModel CliLemmas.
+From JV Require SrvModel SrvLemmas SrvC09 SrvC10 CliModel CliLemmas CliShape.
 Import ListNotations.
 Local Open Scope N_scope.
 
@@ -232,4 +232,110 @@ Proof.
   split; [split; [discriminate | split; [reflexivity | left; reflexivity]]|].
   split; [split; [discriminate | split; [reflexivity | right; right; repeat split; reflexivity]]|].
   split; [reflexivity|]. eexists. split; [vm_compute; reflexivity|]. vm_compute. reflexivity.
+Qed.
+
+(* ------------------------------------------------------------------------- *)
+(* Part C: the client model *)
+
+Lemma uint_digits u : forallb is_digit (CliModel.uint_bytes u) = true.
+Proof. induction u; cbn [CliModel.uint_bytes forallb]; try reflexivity; rewrite IHu; reflexivity. Qed.
+
+Lemma uint_lit u : Decimal.unorm u = u -> is_num_lit (CliModel.uint_bytes u) = true.
+Proof.
+  intros H. destruct u; cbn [CliModel.uint_bytes];
+    try (unfold is_num_lit; rewrite pnum_digits; [reflexivity | lia | apply uint_digits]).
+  - discriminate H.
+  - unfold Decimal.unorm in H. rewrite DecimalFacts.nzhead_D0 in H. destruct (Decimal.nzhead u) eqn:E.
+    + injection H as <-. reflexivity.
+    + exfalso. exact (DecimalFacts.nzhead_nonzero u u0 E).
+    + rewrite <- E in H. exfalso. exact (DecimalFacts.nzhead_nonzero u u H).
+    + rewrite <- E in H. exfalso. exact (DecimalFacts.nzhead_nonzero u u H).
+    + rewrite <- E in H. exfalso. exact (DecimalFacts.nzhead_nonzero u u H).
+    + rewrite <- E in H. exfalso. exact (DecimalFacts.nzhead_nonzero u u H).
+    + rewrite <- E in H. exfalso. exact (DecimalFacts.nzhead_nonzero u u H).
+    + rewrite <- E in H. exfalso. exact (DecimalFacts.nzhead_nonzero u u H).
+    + rewrite <- E in H. exfalso. exact (DecimalFacts.nzhead_nonzero u u H).
+    + rewrite <- E in H. exfalso. exact (DecimalFacts.nzhead_nonzero u u H).
+    + rewrite <- E in H. exfalso. exact (DecimalFacts.nzhead_nonzero u u H).
+Qed.
+
+(* the decimal ids the client allocates are number literals *)
+Lemma id_text_lit k : is_num_lit (CliModel.id_text k) = true.
+Proof.
+  unfold CliModel.id_text. apply uint_lit.
+  rewrite <- (DecimalNat.Unsigned.of_to k) at 2. rewrite DecimalNat.Unsigned.to_of. reflexivity.
+Qed.
+
+(* one member (id, method, params) of a request record *)
+Definition jmsg_of_mem (mem : bytes * bytes * bytes) : jmsg := jmsg_of_req (fst (fst mem)) (snd (fst mem)) (snd mem).
+
+Theorem cli_sendreq_bytes : forall c s l s' os ok batch ms,
+  CliLemmas.reach c s -> CliModel.step s l = Some (s', os) -> In (CliModel.OSendReq ok batch ms) os ->
+  ms <> [] /\ batch = negb (length ms =? 1)%nat /\
+  Forall (fun mem => fst (fst mem) = [] \/ is_num_lit (fst (fst mem)) = true) ms /\
+  (Forall (fun mem => req_rt 1 (snd (fst mem)) (snd mem)) ms ->
+   exists bytes, enc_msgs batch (map jmsg_of_mem ms) = Some bytes /\
+     is_message_json bytes /\ valid bytes = true /\
+     parse_msgs bytes = InMsgs batch (map (fun mem => canon (norm (jmsg_of_mem mem))) ms)).
+Proof.
+  intros c s l s' os ok batch ms R H I.
+  destruct (CliShape.sendreq_shape c s l s' os ok batch ms R H I) as (Hne & Hb & Hid).
+  assert (Hid' : Forall (fun mem => fst (fst mem) = [] \/ is_num_lit (fst (fst mem)) = true) ms).
+  { eapply Forall_impl; [|exact Hid]. intros mem [E|[k E]]; [left; exact E | right; rewrite E; apply id_text_lit]. }
+  split; [exact Hne|]. split; [exact Hb|]. split; [exact Hid'|]. intros Hrt.
+  destruct (enc_msgs_total batch (map jmsg_of_mem ms)) as [bytes Henc]. exists bytes. split; [exact Henc|].
+  assert (Hne' : map jmsg_of_mem ms <> []) by (destruct ms; [contradiction | discriminate]).
+  assert (HF : Forall (msg_rt_at' 1) (map jmsg_of_mem ms)).
+  { apply Forall_forall. intros m Hm. apply in_map_iff in Hm as (mem & <- & Hmem).
+    rewrite Forall_forall in Hid', Hrt.
+    assert (Hi : fst (fst mem) = [] \/ id_rt' (fst (fst mem))).
+    { destruct (Hid' mem Hmem) as [E|E]; [left; exact E | right; right; apply orb_true_iff; right; exact E]. }
+    exact (req_rt_msg 1 _ _ _ Hi (Hrt mem Hmem)). }
+  destruct (msgs_message_json batch _ bytes Hne' HF Henc) as (A & B & C).
+  split; [exact A|]. split; [exact B|]. rewrite C, map_length, map_map. f_equal.
+  rewrite Hb. destruct ms as [|m1 [|m2 ms2]]; [contradiction | reflexivity | reflexivity].
+Qed.
+
+(* the reply of an OnCallback handler *)
+Definition jmsg_of_cbout (id : bytes) (o : CliModel.cbout) : jmsg :=
+  {| j_id := id; j_method := []; j_params := [];
+     j_error := match o with CliModel.CbErr c m => Some {| we_code := c; we_msg := m; we_data := [] |} | _ => None end;
+     j_result := match o with CliModel.CbRes raw => raw | _ => [] end; j_err := None |}.
+
+Definition cbout_rt (o : CliModel.cbout) : Prop :=
+  match o with CliModel.CbRes raw => tight_at 1 raw = true | CliModel.CbErr c _ => int32_ok c end.
+
+Theorem cli_sendrsp_bytes : forall s l s' os ok id o,
+  CliModel.step s l = Some (s', os) -> In (CliModel.OSendRsp ok id o) os ->
+  id_rt' id -> cbout_rt o ->
+  exists bytes, enc_msg (jmsg_of_cbout id o) = Some bytes /\ is_message_json bytes /\ valid bytes = true /\
+    parse_msgs bytes = InMsgs false [canon (jmsg_of_cbout id o)].
+Proof.
+  intros s l s' os ok id o _ _ Hid Ho.
+  assert (Hm : msg_rt' (jmsg_of_cbout id o)).
+  { constructor; cbn [jmsg_of_cbout j_method j_id j_params j_result j_error].
+    - reflexivity.
+    - right. exact Hid.
+    - left. reflexivity.
+    - destruct o; [right; exact Ho | left; reflexivity].
+    - intros e He _ _. destruct o; [discriminate He|]. injection He as <-. split; [exact Ho | left; reflexivity]. }
+  destruct (enc_msg_total (jmsg_of_cbout id o)) as [bytes Henc]. exists bytes. split; [exact Henc|].
+  destruct (enc_msg_object 0 _ bytes depth_le_2 Hm Henc) as [kvs Hk].
+  split; [exists (JObj kvs); split; [exact Hk | left; eexists; reflexivity]|].
+  split; [exact (valid_json_msg _ _ Hm Henc)|].
+  exact (parse_back_single' _ _ Hm Henc).
+Qed.
+
+Example cli_sendreq_bytes_nonvacuous :
+  is_num_lit (CliModel.id_text 12) = true /\
+  Forall (fun mem : bytes * bytes * bytes => req_rt 1 (snd (fst mem)) (snd mem))
+         [(CliModel.id_text 1, [109], [91; 49; 93]); ([], [110], [])] /\
+  exists bytes, enc_msgs true (map jmsg_of_mem [(CliModel.id_text 1, [109], [91; 49; 93]); ([], [110], [])]) = Some bytes /\
+                parse_msgs bytes = InMsgs true (map jmsg_of_mem [([49], [109], [91; 49; 93]); ([], [110], [])]).
+Proof.
+  split; [reflexivity|]. split.
+  - constructor; [|constructor; [|constructor]].
+    + split; [discriminate|]. split; [reflexivity|]. right. right. repeat split; reflexivity.
+    + split; [discriminate|]. split; [reflexivity|]. left. reflexivity.
+  - eexists. split; [vm_compute; reflexivity|]. vm_compute. reflexivity.
 Qed.
